@@ -410,7 +410,7 @@ theorem ikeeps_succ (f : Nat) (ih : IKeeps ee f) : IKeeps ee (f+1) where
       split
       · exact hs'.fr (fr_raise _ _)
       · rename_i n
-        generalize hX : (if 0 < n then _ else _ : NS) = X
+        generalize hX : (if 1 ≤ n then _ else _ : NS) = X
         have hXi : IdInv X := by
           rw [← hX]
           split
